@@ -174,6 +174,8 @@ def replay(run, catalog, beh_dir, n, tag, shards=4):
             st, _ = f.result()
             if st.get("lockkeys"):
                 run.cov["lock_keys_differ_from_specification"] = st["lockkeys"]
+            if st.get("truncated"):
+                run.cov["replay_stopped_after_hanging_requests"] = True
             for k in ("runs", "steps", "hangs"):
                 run.cov["real_" + k] = run.cov.get("real_" + k, 0) + st.get(k, 0)
             traces.append(out)
@@ -440,6 +442,8 @@ def check(run):
         "two concurrent submissions of one transaction that only reads (no exclusive key) may both be answered 'admitted' (R6)",
         "an undo releases the selection locks of the outputs the undone transaction spent (UnlockKey in undoTxInternal)",
     ]
+    if not run.violations and run.cov.get("replay_stopped_after_hanging_requests"):
+        raise vp.Undecided("a replay was cut short after hanging requests but no run was rejected")
     if not run.violations and run.cov.get("lock_keys_differ_from_specification"):
         raise vp.Undecided("ExtractLockKeys no longer yields the specification's lock keys (%s): binding lost, no verdict"
                            % run.cov["lock_keys_differ_from_specification"])
